@@ -106,23 +106,23 @@ def _rebound_to_copy_before(f, name, node) -> bool:
 
 
 INVENTORY = [
-    ("AbstractDataframeDataReader._clean_index", "not df.index.is_unique", "duplicate rows"),
+    ("AbstractDataframeDataReader._clean_index", (".index.is_unique",), "duplicate rows"),
     ("AbstractDataframeDataReader._check_ID", "inferred_dtype not in valid_dtypes", "identifier dtype"),
-    ("AbstractDataframeDataReader._check_ID", "s.isna().any()", "missing identifier"),
-    ("AbstractDataframeDataReader._check_ID", "(s < 0).any()", "negative integer identifier"),
-    ("AbstractDataframeDataReader._check_ID", "(s.str.len() == 0).any()", "empty string identifier"),
+    ("AbstractDataframeDataReader._check_ID", (".isna().any()",), "missing identifier"),
+    ("AbstractDataframeDataReader._check_ID", (" < 0).any()",), "negative integer identifier"),
+    ("AbstractDataframeDataReader._check_ID", (".str.len() == 0).any()",), "empty string identifier"),
     ("AbstractDataframeDataReader._clean_numeric_data", "types_nok", "non-numeric columns"),
-    ("AbstractDataframeDataReader._clean_numeric_data", "len(df_inf_rows_and_cols) != 0", "infinite values"),
-    ("AbstractDataframeDataReader.read", "not isinstance(df, pd.DataFrame)", "not a table"),
-    ("VisitDataframeDataReader._check_TIME", "not cls._check_numeric_type(s)", "non-numeric TIME"),
-    ("VisitDataframeDataReader._check_TIME", "s.isna().any()", "NaN / inf TIME"),
-    ("VisitDataframeDataReader._check_headers", "len(missing_mandatory_columns) > 0", "missing ID / TIME column"),
+    ("AbstractDataframeDataReader._clean_numeric_data", ("len(", "!= 0"), "infinite values"),
+    ("AbstractDataframeDataReader.read", ("not isinstance(", "pd.DataFrame)"), "not a table"),
+    ("VisitDataframeDataReader._check_TIME", ("not cls._check_numeric_type(",), "non-numeric TIME"),
+    ("VisitDataframeDataReader._check_TIME", (".isna().any()",), "NaN / inf TIME"),
+    ("VisitDataframeDataReader._check_headers", ("len(", "> 0"), "missing ID / TIME column"),
     ("VisitDataframeDataReader._clean_dataframe", "self.n_visits == 0", "empty table"),
     ("VisitDataframeDataReader._clean_dataframe", "self.dimension < 1", "no feature"),
-    ("EventDataframeDataReader._clean_dataframe", "not (df_event[self.event_time_name] > 0).all()", "event time <= 0"),
+    ("EventDataframeDataReader._clean_dataframe", ("[self.event_time_name] > 0", ".all()"), "event time <= 0"),
     ("EventDataframeDataReader._clean_dataframe", "astype(int)", "non-integer event flag"),
     ("EventDataframeDataReader._clean_dataframe", "nunique()", "several events per subject"),
-    ("EventDataframeDataReader._clean_dataframe", "!= expected_columns", "unexpected event columns"),
+    ("EventDataframeDataReader._clean_dataframe", (".columns.tolist() !=",), "unexpected event columns"),
     ("JointDataframeDataReader._clean_dataframe", "index.equals", "subjects without visit or event"),
     ("JointDataframeDataReader._clean_dataframe", "-self.tol_diff", "event before the last visit"),
     ("CovariateDataframeDataReader._clean_dataframe_covariates", "isna().any()", "missing covariate"),
@@ -157,11 +157,12 @@ def r2_refusals(ctx):
         found = False
         for r in cfg.nodes(lambda s: isinstance(s, ast.Raise)):
             for h, lab in cfg.if_guards(r):
-                if needle in U(cfg.stmt[h].test):
+                toks = needle if isinstance(needle, tuple) else (needle,)
+                if all(t in U(cfg.stmt[h].test) for t in toks):
                     found = True
         if not found and needle == "types_nok":
             found = any(isinstance(s, ast.If) and U(s.test) == "types_nok" for s in statements(f.node))
-        ctx.check(found, "C14.R2", f, f.node, f"refusal present: {what}", f"the refusal of `{what}` (guard containing `{needle}`) is gone: such tables are silently accepted",
+        ctx.check(found, "C14.R2", f, f.node, f"refusal present: {what}", f"the refusal of `{what}` (guard containing {needle}) is gone: such tables are silently accepted",
                   construct=f"refusal: {what}")
 
 
@@ -194,30 +195,51 @@ def r3_ordering(ctx):
     loop = [n for n, st in rcfg.stmt.items() if isinstance(st, ast.For) and "groupby" in U(st.iter)]
     ctx.check(len(clean_calls) == 3 and bool(loop) and all(rcfg.dominates(c, loop[0]) for c in clean_calls), "C14.R3", read, read.node, "index, numeric and layout cleaning all precede the loading loop",
               "a cleaning step is skipped on some path before individuals are loaded", construct="cleaning before loading")
+    from ..astq import Canon
     ad = ix.func(f"{PKG}.individual_data", "IndividualData.add_observations", "C14.R3")
-    src = U(ad.node)
-    ctx.check("bisect(self.timepoints, t)" in src and "self.timepoints[:index], [t], self.timepoints[index:]" in src and "self.observations[:index], [obs], self.observations[index:]" in src,
-              "C14.R3", ad, ad.node, "observations inserted at the bisection index (ages and values together)", "visits are no longer inserted in age order (ages and values at the same index)", construct="sorted insertion")
+    ca = Canon(ad.node)
+    tp = [t for t in ca.assigned("$0.timepoints") if "concatenate" in t or "insert" in t]
+    ob = [t for t in ca.assigned("$0.observations") if "concatenate" in t or "insert" in t]
+    ctx.form("C14.R3", ad, ad.node, tp[0] if tp else "", {"np.concatenate([$0.timepoints[:bisect($0.timepoints, t)], [t], $0.timepoints[bisect($0.timepoints, t):]])"},
+             [("bisect", "searchsorted", "sort")], "ages inserted at the bisection index", "visits are appended without keeping the ages sorted", construct="sorted insertion of ages")
+    ctx.form("C14.R3", ad, ad.node, ob[0] if ob else "", {"np.concatenate([$0.observations[:bisect($0.timepoints, t)], [obs], $0.observations[bisect($0.timepoints, t):]])"},
+             [("bisect($0.timepoints", "searchsorted", "argsort")], "values inserted at the same index as their age", "values are not inserted at the index of their age: ages and values get misaligned",
+             construct="sorted insertion of values")
     acfg = CFG(ad.node)
-    dup = any(isinstance(acfg.stmt[h], ast.If) and "t in self.timepoints" in U(acfg.stmt[h].test) and lab for r in acfg.nodes(lambda s: isinstance(s, ast.Raise)) for h, lab in acfg.if_guards(r))
+    dup = any(isinstance(acfg.stmt[h], ast.If) and " in self.timepoints" in U(acfg.stmt[h].test) and lab for r in acfg.nodes(lambda s: isinstance(s, ast.Raise)) for h, lab in acfg.if_guards(r))
     ctx.check(dup, "C14.R3", ad, ad.node, "an existing age is refused", "adding an already present age is no longer refused", construct="duplicate age refused")
     ds = f"{PKG}.dataset"
     cv = ix.func(ds, "Dataset._construct_values", "C14.R3")
-    src = U(cv.node)
-    ok = "mask = padding_mask * mask_missingvalues" in src and "(~torch.isnan(values)).float()" in src and "values[torch.isnan(values)] = 0.0" in src
-    ctx.check(ok, "C14.R3", cv, cv.node, "mask = padding * not-NaN; NaNs zero-filled", "the mask is no longer padding * not-NaN, or NaNs are no longer zero-filled", construct="mask construction")
-    ok = "padding_mask[i, 0:nb_vis, :] = 1.0" in src and "values[i, 0:nb_vis, :] = indiv_values" in src
-    ctx.check(ok, "C14.R3", cv, cv.node, "values and padding mask filled on the same rows", "values and padding mask are filled on different rows", construct="aligned fill")
-    ok = "self.n_observations_per_ind_per_ft = mask.sum(dim=1).int()" in src and "self.n_observations = self.n_observations_per_ft.sum().item()" in src
-    ctx.check(ok, "C14.R3", cv, cv.node, "observation counts derive from the mask", "observation counts no longer derive from the mask", construct="counts from mask")
+    cc = Canon(cv.node)
+    Z = "torch.zeros(($0.n_individuals, $0.n_visits_max, $0.dimension))"
+    mk = cc.assigned("$0.mask")
+    ctx.form("C14.R3", cv, cv.node, mk[0] if mk else "", {f"torch.zeros_like({Z}) * (~torch.isnan({Z})).float()"}, ["isnan", ("zeros_like", "padding")],
+             "mask = padding mask * not-NaN", "the dataset mask no longer combines the padding mask with the not-NaN mask: missing (or padded) entries count as observed", construct="mask construction")
+    stores = {}
+    for st in sorted(statements(cv.node), key=lambda x: x.lineno):
+        if isinstance(st, ast.Assign) and isinstance(st.targets[0], ast.Subscript):
+            stores[cc.text(st.targets[0])] = cc.text(st.value)
+    ok = stores.get(f"{Z}[i, 0:nb_vis, :]") == "torch.tensor(np.array($1[i].observations), dtype=torch.float32)" and stores.get(f"torch.zeros_like({Z})[i, 0:nb_vis, :]") == "1.0"
+    ctx.anchor(ok, "C14.R3", cv, cv.node, "values and padding mask filled on the same rows [i, 0:nb_vis, :]", "per-individual fill of values / padding mask", construct="aligned fill")
+    ctx.check(stores.get(f"{Z}[torch.isnan({Z})]") == "0.0", "C14.R3", cv, cv.node, "NaNs zero-filled in the value tensor", "NaNs are no longer zero-filled in the value tensor (a NaN at a masked position would propagate)",
+              construct="NaN zero-fill")
+    no = cc.assigned("$0.n_observations_per_ind_per_ft")
+    ctx.form("C14.R3", cv, cv.node, no[0] if no else "", {f"(torch.zeros_like({Z}) * (~torch.isnan({Z})).float()).sum(dim=1).int()"}, [("isnan", "mask")],
+             "observation counts derive from the mask", "observation counts no longer derive from the mask", construct="counts from mask")
     gv = ix.func(ds, "Dataset.get_values_patient", "C14.R3")
-    src = U(gv.node)
-    ok = "nans = self.mask[i, :self.n_visits_per_individual[i], :] == 0" in src and "values_with_nans[nans, ...] = float('nan')" in src and ".clone()" in src
-    ctx.check(ok, "C14.R3", gv, gv.node, "NaN restored from the mask on a clone", "get_values_patient no longer restores NaN from the mask (on a clone)", construct="NaN restored from mask")
-    tp = ix.func(ds, "Dataset.to_pandas", "C14.R3")
-    src = U(tp.node)
-    ok = "self.get_values_patient(i)" in src and "pd.concat(to_concat).sort_index()" in src
-    ctx.check(ok, "C14.R3", tp, tp.node, "to_pandas uses the NaN-restored values and sorts the index", "to_pandas no longer uses the NaN-restored values / sorted index", construct="to_pandas")
+    cg = Canon(gv.node)
+    st_ = {}
+    for st in statements(gv.node):
+        if isinstance(st, ast.Assign) and isinstance(st.targets[0], ast.Subscript):
+            st_[cg.text(st.targets[0])] = cg.text(st.value)
+    key = "values_to_pick_from[$1, :$0.n_visits_per_individual[$1], ...].clone().detach()[$0.mask[$1, :$0.n_visits_per_individual[$1], :] == 0, ...]"
+    txt = next((k + " <- " + v for k, v in st_.items() if "nan" in v), "")
+    ctx.form("C14.R3", gv, gv.node, txt, {key + " <- float('nan')"}, ["$0.mask", "nan", ("clone", "copy")], "NaN restored from the mask on a clone",
+             "get_values_patient no longer restores NaN from the mask on a copy (zero-filled values would be read back as observations, or the dataset modified)", construct="NaN restored from mask")
+    tp_ = ix.func(ds, "Dataset.to_pandas", "C14.R3")
+    src = U(tp_.node)
+    ok = ".get_values_patient(" in src and "sort_index()" in src
+    ctx.check(ok, "C14.R3", tp_, tp_.node, "to_pandas uses the NaN-restored values and sorts the index", "to_pandas no longer uses the NaN-restored values / a sorted index", construct="to_pandas")
 
 
 def rules(ctx):
@@ -243,5 +265,8 @@ VARIANTS = [
     V("inf-accepted", A, "        if len(df_inf_rows_and_cols) != 0:\n", "        if False:\n", "C14.R2"),
     V("negative-event-accepted", ER, "        if not (df_event[self.event_time_name] > 0).all():\n            raise LeaspyDataInputError(\"Events must be above 0\")\n", "", "C14.R2"),
     V("keyerror-for-duplicates", "src/leaspy/io/data/individual_data.py", "                raise LeaspyDataInputError(\n                    f\"Trying to overwrite timepoint {t} \"", "                raise KeyError(\n                    f\"Trying to overwrite timepoint {t} \"", "C14.R2"),
+    V("silent-rename-event-local", ER, "df_event", "events", None, count=16),
+    V("silent-rename-mask-local", "src/leaspy/io/data/dataset.py", "mask_missingvalues", "not_nan", None, count=2),
+    V("unsorted-insertion", "src/leaspy/io/data/individual_data.py", "                index = bisect(self.timepoints, t)\n", "                index = len(self.timepoints)\n", "C14.R3"),
     V("mask-ignores-nan", "src/leaspy/io/data/dataset.py", "        mask = padding_mask * mask_missingvalues", "        mask = padding_mask", "C14.R3"),
 ]
